@@ -89,7 +89,7 @@ func c11TypedValue(name string, a, b int) val.V {
 	return v
 }
 
-var c11OpKinds = []string{"build", "build", "buildtyped", "decode", "copy", "embed", "bytesreader", "subset", "transform", "reread", "partial", "largebytes", "encode", "reset", "assignroot", "walk"}
+var c11OpKinds = []string{"build", "build", "buildtyped", "decode", "copy", "embed", "bytesreader", "subset", "transform", "reread", "partial", "largebytes", "encode", "reset", "resetassign", "assignroot", "walk"}
 
 // eofSeeker is a bytes.Reader that returns io.EOF together with the last bytes instead of on the next call.
 type eofSeeker struct{ *bytes.Reader }
@@ -475,6 +475,31 @@ func c11Check(c C11Case, rec *evid.Rec) error {
 				}
 				ts[len(ts)-1].regen = regen
 				return nil
+			case "resetassign":
+				// Reset the producing builder, then fill it by AssignNode of a node of ANOTHER implementation holding
+				// another value of the same kind (the generic copy path of the builder's AssignNode)
+				if tgt.nb == nil || tgt.regen != nil || tgt.snap.K == val.Uint {
+					return nil
+				}
+				v2 := tgt.snap
+				if m, ok := val.Mutate(tgt.snap, 0, op.A); ok && m.K == tgt.snap.K {
+					v2 = m
+				}
+				if v2.Has(func(x val.V) bool { return x.K == val.Uint }) {
+					return nil
+				}
+				src, err := nodes.Build(v2, nodes.NewProg(op.Prog), nodes.ProtoFor(nodes.Impl(op.Impl), v2.K))
+				if err != nil {
+					return fmt.Errorf("building the source: %w", err)
+				}
+				tgt.nb.Reset()
+				if err := tgt.nb.AssignNode(src); err != nil {
+					return fmt.Errorf("AssignNode after Reset: %w", err)
+				}
+				sharing, mutatingAfterSharing = true, true
+				nb := tgt.nb
+				tgt.nb = nil
+				return track(nb.Build(), "reset-assignnode/"+op.Impl, nb)
 			case "assignroot":
 				nb := nodes.ProtoFor(nodes.Impl(op.Impl), tgt.snap.K).NewBuilder()
 				if err := nb.AssignNode(tgt.n); err != nil {
@@ -521,7 +546,7 @@ var _ = selector.Matcher{}
 
 var c11Part = evid.Part[C11Case]{
 	Prop: "C11", Name: "histories", Quick: 1500, Thorough: 600000,
-	Rule: "history of ≤30 operations over a table of tracked nodes: producers = builders (all implementations and call programs; typed struct / typed-map builders of the generated code in node/gendemo and of bindnode, at type and representation level), decoders (input buffer overwritten afterwards), reader-backed bytes nodes, subset and plain selector matches, visited children of walks, FocusedTransform results, Copy targets, containers embedding a tracked node followed by more siblings, root AssignNode followed by Reset and reuse, Reset and reuse of the producing builder; other actions = full / partial / repeated reads, AsLargeBytes with interleaved readers and seeks, encoding; after EVERY operation every tracked node is read twice and must equal its snapshot; non-trivial = ≥3 operations including a structure-sharing one followed by a potentially mutating one; distinct by history",
+	Rule: "history of ≤30 operations over a table of tracked nodes: producers = builders (all implementations and call programs; typed struct / typed-map builders of the generated code in node/gendemo and of bindnode, at type and representation level), decoders (input buffer overwritten afterwards), reader-backed bytes nodes, subset and plain selector matches, visited children of walks, FocusedTransform results, Copy targets, containers embedding a tracked node followed by more siblings, root AssignNode followed by Reset and reuse, Reset and reuse of the producing builder (by assembly, or by AssignNode of a node of another implementation); other actions = full / partial / repeated reads, AsLargeBytes with interleaved readers and seeks, encoding; after EVERY operation every tracked node is read twice and must equal its snapshot; non-trivial = ≥3 operations including a structure-sharing one followed by a potentially mutating one; distinct by history",
 	Gen: func(t *rapid.T) C11Case {
 		var c C11Case
 		n := rapid.IntRange(1, 30).Draw(t, "nops")
